@@ -161,11 +161,20 @@ def _natd(t):
     elif how in ("tag", "tag_i", "tag_n"):
         s = str(base) + "@" + ("%r" % val) + {"tag": "", "tag_i": "i", "tag_n": "n"}[how]
         f = P.formula(s)
+    elif how in ("iadd_density", "iadd_natural"):
+        # a formula whose densities have been used, then changed in place, then given a new density
+        f = P.formula(base, natural_density=t["before"])
+        _ = (f.density, f.natural_density, f.natural_mass_ratio())
+        f += P.formula(build(t["other"]))
+        if how == "iadd_density":
+            f.density = val
+        else:
+            f.natural_density = val
     elif how == "str_kw_natural":
         f = P.formula(str(base), natural_density=val)
     elif how == "str_kw_density":
         f = P.formula(str(base), density=val)
-    given = {"kind": "none"} if how == "none" else {"kind": "natural" if how in ("kw_natural", "attr_natural", "tag_n", "str_kw_natural") else "density",
+    given = {"kind": "none"} if how == "none" else {"kind": "natural" if how in ("kw_natural", "attr_natural", "tag_n", "str_kw_natural", "iadd_natural") else "density",
                                                     "v": dec.to_dec(val)}
     ev = {"ev": "natd", "id": t["id"], "atoms": _atoms_nat(f), "given": given, "density": dec.enc(f.density)}
     ev["natural_density"] = dec.enc(f.natural_density) if f.density is not None else {"k": "none"}
